@@ -378,7 +378,16 @@ pub fn finish(ctx: &Ctx, started: Instant, mut stats: Stats, report: Report) -> 
     let known = load_known(ctx.id);
     let mut violations: Vec<Failure> = Vec::new();
     let mut known_seen: BTreeMap<String, (String, u64)> = BTreeMap::new();
+    let mut per_sig: BTreeMap<String, u32> = BTreeMap::new();
+    let mut suppressed_dups = 0u64;
     for f in std::mem::take(&mut stats.failures) {
+        // at most two witnesses per signature
+        let n = per_sig.entry(f.signature.clone()).or_default();
+        *n += 1;
+        if *n > 2 {
+            suppressed_dups += 1;
+            continue;
+        }
         if let Some(k) = known.iter().find(|k| k.signature == f.signature) {
             known_seen.entry(k.signature.clone()).or_insert((k.what.clone(), 0)).1 += 1;
         } else {
@@ -432,6 +441,9 @@ pub fn finish(ctx: &Ctx, started: Instant, mut stats: Stats, report: Report) -> 
         "known_findings_hit".into(),
         json!(known_seen.iter().map(|(k, (w, n))| json!({"signature": k, "what": w, "hits": n})).collect::<Vec<_>>()),
     );
+    if suppressed_dups > 0 {
+        stats.notes.push(format!("{suppressed_dups} further failing cases with an already reported signature not listed"));
+    }
     if !stats.notes.is_empty() {
         coverage.insert("notes".into(), json!(stats.notes));
     }
